@@ -9,7 +9,7 @@ Oracle : the causal reference model (model.py): same values at the same source p
 """
 from rx.subject import Subject
 
-from ..common import Check, Outcome, Snap, bootstrap, norm, with_prelude, prelude_tags, shrink_prelude, PRELUDE_TAGS
+from ..common import Check, Outcome, Snap, bootstrap, norm, with_prelude, prelude_tags, shrink_prelude, PRELUDE_TAGS, PRELUDE_RULE
 from .. import gen, model, progs
 from ..muxmon import Monitor
 
@@ -80,6 +80,7 @@ class C11(Check):
             'around stateless, stateful, reducing and batching operators; input of 0..30 ints (every 700th case at scale: ~700 items, take/batch/lag 257+, roll windows of 257-400, 300-1000 groups, day-scale time_split timeouts on datetime stamps); mode multiplexed, or plain for programs made of '
             'dual-mode operators without take/first). The source is a Subject; every output is stamped with the index of the item being pushed. '
             'non-trivial = at least one output before completion and at least one at completion; distinct = hash of (program, input, mode)')
+    RULE += PRELUDE_RULE
     ASSUMPTIONS = ['the reference model (rxverif/model.py) is the specification of what determines each output; it is cross-checked by the '
                    'model-free differential checks C01/C02/C08 and by the literal expectations of the repository tests (model_selftest)',
                    'order-sensitive operators are never generated downstream of a roll with ceil(w/s) > 1 (delivery order between open windows is unspecified)',
